@@ -66,8 +66,14 @@ func vParam(allowEch, allowFree bool) string {
 		}
 		return "ipv4hint=1.2.3.4"
 	}
+	if vTier() > 0 && vBool() {
+		// the key "ech" followed by one free byte ('=' makes it an ech entry with an empty value)
+		c := vByte()
+		vAssume(c == 'e' || c == 'c' || c == 'h' || c == '=' || c == '"' || c == 'a' || c == '1')
+		return "ech" + string([]byte{c})
+	}
 	// free-form parameter: symbolic bytes over the alphabet {e,c,h,=,",a,1}
-	n := vInt(1, 2+2*vTier()) // (four bytes can spell "ech=")
+	n := vInt(1, 2+vTier())
 	b := vBytes(n)
 	for _, c := range b {
 		vAssume(c == 'e' || c == 'c' || c == 'h' || c == '=' || c == '"' || c == 'a' || c == '1')
